@@ -87,7 +87,7 @@ func entriesFor(alpha string) []*Entry {
 // allEntries: feed every string to all nine entry points instead of the alphabet's four.
 // extraLen is added to the alphabets' lengths for checks whose oracle is cheap (C01, C03).
 var extraLen = map[string]int{
-	"C01/expr": 1, "C01/query": 1,
+	"C01/expr": 1,
 	"C03/expr": 1, "C03/query": 1,
 }
 
@@ -97,7 +97,9 @@ func tokenSpaces(r *explore.Run, opt explore.Options, allEntries bool, body func
 		if r.Tier == "thorough" {
 			k = a.Thorough
 		}
-		k += extraLen[r.Property+"/"+a.Name]
+		extra := extraLen[r.Property+"/"+a.Name]
+		k += extra
+		an := a.Name
 		ents := entriesFor(a.Name)
 		if allEntries {
 			ents = nil
@@ -119,6 +121,17 @@ func tokenSpaces(r *explore.Run, opt explore.Options, allEntries bool, body func
 			s := strings.Join(parts, " ")
 			c.Input(s)
 			c.Sample(fmt.Sprintf("%q", s))
+			if extra > 0 && len(seq) > k-extra {
+				// the strings of the extra length go through the alphabet's own entry point (and, for all-entry
+				// checks, the two statement entry points) only
+				prim := entriesFor(an)
+				body(c, prim[0], s)
+				if allEntries {
+					body(c, EntryByName("ParseStatement"), s)
+					body(c, EntryByName("ParseStatements"), s)
+				}
+				return
+			}
 			for _, e := range ents {
 				body(c, e, s)
 			}
